@@ -6,6 +6,7 @@ import (
 	"fmt"
 	"io"
 	"math/rand"
+	"strings"
 	"sync"
 
 	"github.com/IBM/fluent-forward-go/fluent/client"
@@ -51,6 +52,8 @@ type pcall struct {
 	err     error
 	snapStr []byte // deep copy of the stream / bytes at return time
 	snapOpt string
+	chunk     string // get_chunk: the string GetChunk returned (kept, not copied)
+	chunkSnap string // ... and a copy of its content at return time
 }
 
 func genPcall(r *rand.Rand, big bool) *pcall {
@@ -59,11 +62,17 @@ func genPcall(r *rand.Rand, big bool) *pcall {
 	if big && r.Intn(6) == 0 {
 		n = 1000 + r.Intn(3000)
 	}
+	mid := r.Intn(8) == 0 // a stream of 20-70 KiB made of a handful of entries (the buffer grows by doubling on the way)
+	if mid {
+		n = 3 + r.Intn(5)
+	}
 	p.es = make([]gen.Entry, n)
 	for i := range p.es {
 		s, ns := gen.GenInstant(r)
 		var rec *gen.V
-		if n > 50 {
+		if mid {
+			rec = gen.Map([][]byte{[]byte("log")}, []*gen.V{gen.Str(bytes.Repeat([]byte{byte('a' + i)}, 6000+r.Intn(6000)))})
+		} else if n > 50 {
 			rec = gen.Map([][]byte{[]byte("k")}, []*gen.V{gen.Int(int64(i))})
 		} else {
 			rec = gen.GenMap(r, 1, false)
@@ -112,6 +121,10 @@ func (p *pcall) run() {
 		p.msg, p.err = protocol.NewCompressedPackedForwardMessageFromBytes(p.tag, p.payload)
 	case "marshal_packed":
 		p.bits, p.err = p.el.MarshalPacked()
+	case "get_chunk":
+		p.chunk, p.err = protocol.GetChunk(p.payload)
+		p.chunkSnap = strings.Clone(p.chunk)
+		return
 	}
 	if p.msg != nil {
 		p.snapStr = append([]byte{}, p.msg.EventStream...)
@@ -190,6 +203,15 @@ func (p *pcall) judgeAtReturn(c *core.Ctx, how string) {
 
 // stillIntact: C07 — the returned value and the caller's arguments are what they were.
 func (p *pcall) stillIntact() (string, bool) {
+	if p.kind == "get_chunk" {
+		if p.chunk != p.chunkSnap {
+			return fmt.Sprintf("the string returned by GetChunk changed from %q to %q", p.chunkSnap, p.chunk), false
+		}
+		if !bytes.Equal(p.payload, p.paySnap) {
+			return "the caller's byte slice was modified", false
+		}
+		return "", true
+	}
 	if p.bad {
 		if gen.RenderEntries(gen.EntriesFromGo(p.el), false) != p.elSnap {
 			return "the caller's entry list was modified", false
@@ -278,7 +300,10 @@ func C07(c *core.Ctx) {
 			p.run()
 			names += p.kind + " "
 			// other library calls interleaved: GetChunk, MarshalMsg, a Send
-			switch r.Intn(4) {
+			if p.msg != nil && len(gen.OptsFromGo(p.msg.Options).Chunk) != 0 {
+				c.Violation("judge-go", "c07-born-with-chunk", "a newly built message ("+p.kind+") already carries a chunk id: "+optRender(p.msg.Options), map[string]interface{}{"history": names})
+			}
+			switch []int{0, 1, 2, 3, 3, 3, 4, 5}[r.Intn(8)] {
 			case 0:
 				if p.msg != nil {
 					b, _ := p.msg.MarshalMsg(nil)
@@ -288,6 +313,39 @@ func C07(c *core.Ctx) {
 				if p.msg != nil {
 					cl, _ := liveClient(false)
 					_ = cl.Send(p.msg)
+				}
+			case 2:
+				// the chunk id of a marshalled message, kept by the caller like any other returned value
+				m := &protocol.Message{Tag: "t", Timestamp: 1, Record: map[string]interface{}{}, Options: &protocol.MessageOptions{Chunk: fmt.Sprintf("chunk-%d-%d-%s", h, i, strings.Repeat("x", r.Intn(40)))}}
+				b, _ := m.MarshalMsg(nil)
+				g := &pcall{kind: "get_chunk", payload: b, paySnap: append([]byte{}, b...)}
+				g.run()
+				if g.err != nil || g.chunk != m.Options.Chunk {
+					c.Violation("judge-go", "c07-getchunk", "GetChunk did not return the chunk id of a message it was given", map[string]interface{}{"bytes": hx(b)})
+				}
+				held = append(held, g)
+			case 3:
+				// Chunk() on a message returned earlier: that message (alone) gets an id
+				var ms []*pcall
+				for _, q := range held {
+					if q.msg != nil && !q.bad {
+						ms = append(ms, q)
+					}
+				}
+				if len(ms) > 0 {
+					q := ms[r.Intn(len(ms))]
+					before := gen.OptsFromGo(q.msg.Options)
+					id, err := q.msg.Chunk()
+					after := gen.OptsFromGo(q.msg.Options)
+					wantChunk := string(before.Chunk)
+					if before.Absent || len(before.Chunk) == 0 {
+						wantChunk = id
+					}
+					before.Absent, before.Chunk = false, []byte(wantChunk)
+					if err != nil || id == "" || after.Render() != before.Render() {
+						c.Violation("judge-go", "c07-chunk-call", "Chunk() on a held message did not just set its id: "+after.Render(), map[string]interface{}{"history": names})
+					}
+					q.snapOpt = optRender(q.msg.Options)
 				}
 			}
 			held = append(held, p)
